@@ -2,15 +2,15 @@
 """Function translator, AutoStream (C08; the lock discipline of C19):
 
   crates/anstream/src/strip.rs   StripStream::{new, into_inner, is_terminal, lock (Stdout), lock (Stderr)}
-  crates/anstream/src/auto.rs    AutoStream::{always_ansi_, always_ansi, always, never, choice, new, auto,
+  crates/anstream/src/auto.rs    AutoStream::{always_ansi_, always_ansi, always, never, wincon, choice, new, auto,
                                  into_inner, is_terminal, current_choice, lock (Stdout), lock (Stderr)} and
                                  <AutoStream as io::Write>::{write, write_vectored, flush, write_all, write_fmt}
   -> coq/Generated/AutoFn.v      (generator name AutoFn)
 
 translated (tools/rs2v) for the configuration the properties are stated for: a NON-Windows target with the
 default features (`cfg_static`: `cfg!(windows)` = false, feature "auto" on, `all(windows, feature = "wincon")`
-off -- the Windows branch of `always`, the `Wincon` arms and `AutoStream::wincon` are compiled out and are not
-translated).  Proofs/AutoGen.v proves every translation equal to the hand model (Model/Stream.v: auto_mode,
+off -- the Windows branch of `always` and the `Wincon` arms are compiled out and are not translated; of
+`AutoStream::wincon` the compiled-in block `Err(raw)` is).  Proofs/AutoGen.v proves every translation equal to the hand model (Model/Stream.v: auto_mode,
 auto_op, run_ops, current_choice) the theorems of C08 are about.
 
 The Strip arm forwards to the methods of `impl io::Write for StripStream`, which are ALREADY translated
@@ -153,6 +153,8 @@ V_AUTO = {
     },
     "consts": {},
     "param_types": {"args": ("list", BYTES)},
+    # `fn wincon(raw: S) -> Result<Self, S>`: not an io::Result -- the sum  AutoStream + S
+    "ret_types": {"AutoStream::wincon": ("coq", "(astream + writer)")},
     "transparent_places": ["as_locked_write"],
     "fns": {
         "StreamInner::PassThrough": ctor_shape("SIPass", WRITER),
@@ -417,6 +419,8 @@ def register(generators, gm):
                 ("always_ansi", "AutoStream", "g_as_always_ansi", {}),
                 ("always", "AutoStream", "g_as_always", {}),
                 ("never", "AutoStream", "g_as_never", {}),
+                # the non-Windows block: no legacy console, the raw stream is handed back (`Err(raw)`)
+                ("wincon", "AutoStream", "g_as_wincon", {}),
                 ("choice", "AutoStream", "g_as_choice", {}),
                 # `new` and `auto` call each other: `auto` is inlined into `new` (a local helper), `new` recurses
                 # on fuel (Auto -> the decided choice -> a constructor: two levels), `auto` then calls `new`
